@@ -9,6 +9,10 @@ EXTENDS Naturals, Sequences, FiniteSets
 
 StringsUpTo(alphabet, n) == UNION {[1..k -> alphabet] : k \in 0..n}
 PlansOver(exprs, k) == [1..k -> exprs]
+\* every short string also as the argument of a parenthesis and of a function: a failure INSIDE an
+\* argument happens on the nested solver instance
+Wrapped(strs) == {<<"(">> \o s \o <<")">> : s \in strs} \cup {<<"f1(">> \o s \o <<")">> : s \in strs}
+                 \cup {<<"a", "*", "(">> \o s \o <<")">> : s \in strs}
 
 AllOps == {"**", "*", "/", "+", "-", "==", "!=", "<=", ">=", "<", ">", "!", "&&", "||", "(", "f1(", "f2("}
 DefaultSteps ==
